@@ -114,6 +114,8 @@ func (v *certVariant) finish() {
 	v.okSKI = len(v.leaf.SubjectKeyId) == 20 && v.skiHex == v.keySKI
 }
 
+var victimCert [][]byte
+
 func variants(victimSKI []byte) []certVariant {
 	var out []certVariant
 	ec := func() *ecdsa.PrivateKey { k, _ := ecdsa.GenerateKey(elliptic.P256(), rand.Reader); return k }
@@ -143,6 +145,19 @@ func variants(victimSKI []byte) []certVariant {
 	rnd := make([]byte, 20)
 	rand.Read(rnd)
 	out = append(out, makeCert("ski-random-20", k, &k.PublicKey, rnd, "random"))
+	// certificate chains: the TLS handshake proves possession of the key of the FIRST certificate only;
+	// appending another device's (public) certificate must never lend its identity
+	for _, base := range []string{"ski-absent", "ski-len-19", "ski-random-20", "ski-correct"} {
+		for _, v := range out {
+			if v.name == base && victimCert != nil {
+				c := *v.cert
+				c.Certificate = append([][]byte{v.cert.Certificate[0]}, victimCert...)
+				cv := certVariant{name: "chain:" + base + "+victim", cert: &c, leaf: v.leaf}
+				cv.finish()
+				out = append(out, cv)
+			}
+		}
+	}
 	rk, _ := rsa.GenerateKey(rand.Reader, 2048)
 	tmp = makeCert("tmp", rk, &rk.PublicKey, []byte{1}, "x")
 	out = append(out, makeCert("rsa-correct", rk, &rk.PublicKey, spkiHash(tmp.leaf), "rsa"))
@@ -157,6 +172,7 @@ type result struct {
 	Got      bool     `json:"got_ship_traffic"`
 	SKIs     []string `json:"skis_named"`
 	Detail   string   `json:"detail"`
+	WrongSKI string   `json:"wrong_ski,omitempty"`
 }
 
 func freePort() int {
@@ -182,6 +198,12 @@ func engineError(format string, a ...any) {
 
 func inbound(vs []certVariant, a *app, port int) []result {
 	var out []result
+	legit := map[string]bool{}
+	for _, v := range vs {
+		if v.okSKI {
+			legit[v.keySKI] = true
+		}
+	}
 	subs := [][]string{nil, {"ship"}, {"x"}, {"x", "ship"}}
 	clientVariants := append([]certVariant{{name: "no-certificate"}}, vs...)
 	for _, v := range clientVariants {
@@ -225,7 +247,16 @@ func inbound(vs []certVariant, a *app, port int) []result {
 					conn.Close()
 				}
 				time.Sleep(20 * time.Millisecond)
-				out = append(out, result{Case: name, Expected: expected, Got: got, SKIs: a.take(), Detail: strings.TrimSpace(detail)})
+				named := a.take()
+				res := result{Case: name, Expected: expected, Got: got, SKIs: named, Detail: strings.TrimSpace(detail)}
+				// callbacks are delayed (500 ms notifications), so they cannot be attributed to one case; but every
+				// SKI the hub ever names must be the key hash of a peer that legitimately connected
+				for _, s := range named {
+					if !legit[s] {
+						res.WrongSKI = s
+					}
+				}
+				out = append(out, res)
 				_ = v.keySKI
 			}
 		}
@@ -363,6 +394,7 @@ func main() {
 	h.Start()
 	time.Sleep(200 * time.Millisecond)
 
+	victimCert = victim.Certificate
 	vs := variants(vl.SubjectKeyId)
 	var results []result
 	results = append(results, inbound(vs, a, port)...)
@@ -410,7 +442,14 @@ func main() {
 				viol[key] = r
 			}
 		}
-		// every SKI named in a callback must be the hash of the key of the certificate in play (checked per case by name)
+		// every SKI named in a callback must be the hash of the key the peer proved possession of
+		if r.WrongSKI != "" {
+			parts := strings.Fields(r.Case)
+			key := fmt.Sprintf("C02|%s|foreign-ski-named|%s", parts[0], strings.TrimPrefix(parts[1], "cert="))
+			if _, ok := viol[key]; !ok {
+				viol[key] = r
+			}
+		}
 	}
 	var keys []string
 	for k := range viol {
